@@ -45,10 +45,10 @@ def cal_range(cal_id):
     """(lo, hi, consistent): public first day of min_year / last day of max_year as day numbers; consistent is False when
     the calendar's private day range disagrees with them (then the raise-at-the-end law is not demanded: C01's subject)"""
     cal = CalendarSystem.for_id(cal_id)
-    lo = day_of(LocalDate(cal.min_year, 1, 1, cal))
-    my = cal.max_year
-    mm = cal.get_months_in_year(my)
-    hi = day_of(LocalDate(my, mm, cal.get_days_in_month(my, mm), cal))
+    # min/max over the months: month 1 is not the first month of the year in every numbering (Hebrew Scriptural starts at month 7)
+    y0, y1 = cal.min_year, cal.max_year
+    lo = min(day_of(LocalDate(y0, m, 1, cal)) for m in range(1, cal.get_months_in_year(y0) + 1))
+    hi = max(day_of(LocalDate(y1, m, cal.get_days_in_month(y1, m), cal)) for m in range(1, cal.get_months_in_year(y1) + 1))
     consistent = True
     try:
         consistent = (cal._min_days, cal._max_days) == (lo, hi)
